@@ -91,7 +91,14 @@ Catalogue == <<
     [tar |-> 2, comp |-> "gzip", fam |-> "docker", lbl |-> FALSE],
     [tar |-> 2, comp |-> "zstd", fam |-> "oci",    lbl |-> TRUE],
     [tar |-> 2, comp |-> "none", fam |-> "docker", lbl |-> FALSE],
-    [tar |-> 1, comp |-> "esgz", fam |-> "oci",    lbl |-> FALSE] >>
+    [tar |-> 1, comp |-> "esgz", fam |-> "oci",    lbl |-> FALSE],
+    \* every layer media type the converters accept: Docker zstd/foreign, OCI non-distributable
+    [tar |-> 1, comp |-> "zstd", fam |-> "docker", lbl |-> FALSE],
+    [tar |-> 2, comp |-> "gzip", fam |-> "ocind",  lbl |-> FALSE],
+    [tar |-> 1, comp |-> "none", fam |-> "dockerforeign", lbl |-> FALSE],
+    [tar |-> 2, comp |-> "zstd", fam |-> "ocind",  lbl |-> FALSE],
+    [tar |-> 1, comp |-> "gzip", fam |-> "dockerforeign", lbl |-> TRUE],
+    [tar |-> 2, comp |-> "none", fam |-> "ocind",  lbl |-> FALSE] >>
 
 CompIdx(c) == CASE c = "none" -> 0 [] c = "gzip" -> 1 [] c = "zstd" -> 2 [] c = "esgz" -> 3
 \* a source layer as the conversions see it: the catalogue entry plus the id of its bytes in the store
@@ -231,7 +238,10 @@ Interrupt(c) ==
 MtComp(s) == IF Mode = "zstd" THEN "zstd"
              ELSE IF s.comp \in {"none", "gzip", "esgz"} \/ MediaTypeFollowsBlob THEN "gzip"
              ELSE s.comp       \* pinned tree: "Media type is unchanged" (+gzip only if uncompressed)
-MtFam(s) == IF Mode = "zstd" THEN "oci" ELSE s.fam
+\* zstd:chunked converts Docker types to OCI (foreign -> non-distributable)
+MtFam(s) == IF Mode = "zstd"
+            THEN (IF s.fam \in {"docker", "oci"} THEN "oci" ELSE "ocind")
+            ELSE s.fam
 
 \* descriptor from the Blob accessors of the conversion's own blob; ext: writeTOCTo from the OWN compressor object
 Annotate(c) ==
